@@ -122,3 +122,29 @@ impl Drop for OpGuard {
         log(Kind::Free, self.id);
     }
 }
+
+thread_local! {
+    static ON_POINT: RefCell<Option<Box<dyn FnMut(&'static str)>>> = const { RefCell::new(None) };
+}
+
+/// Install (or remove) the callback invoked at the named interleaving points inside the
+/// driver's `poll`/`flush` of the current thread. A harness uses it to perform "what another
+/// thread could do at exactly this point" (e.g. invoke a waker), which enumerates the positions
+/// of a concurrent action relative to the driver's internal steps.
+pub fn set_on_point(f: Option<Box<dyn FnMut(&'static str)>>) {
+    ON_POINT.with(|p| *p.borrow_mut() = f);
+}
+
+/// An interleaving point inside the driver.
+pub fn point(name: &'static str) {
+    let f = ON_POINT.with(|p| p.borrow_mut().take());
+    if let Some(mut f) = f {
+        f(name);
+        ON_POINT.with(|p| {
+            let mut g = p.borrow_mut();
+            if g.is_none() {
+                *g = Some(f);
+            }
+        });
+    }
+}
